@@ -175,6 +175,24 @@ CLAIMED.update({
 })
 
 CLAIMED.update({
+ "C20": dict(category="other",
+    text="Proved over assumed NaCl / JSON laws: KeyRing._get_box picks the box of this side's role under the covering "
+         "(else default) key; encode returns None exactly without a box and otherwise only seal(box, JSON{uri,args,kwargs}, "
+         "nonce) tagged cryptobox/json; decode returns only fields read from a payload that opened (authenticated) under "
+         "this side's box and is tagged json, and raises otherwise. Session: an encrypted ERROR becomes the application's "
+         "exception only after one decode as originator that opened and whose sealed URI equals the envelope URI -- "
+         "otherwise exactly one of the three explicit encryption errors, no registered class is even tried; an error "
+         "raised while a codec is active leaves as ciphertext with no clear args/kwargs; an encrypted EVENT invokes one "
+         "handler per decode (as responder, with the envelope topic) that opened and names that topic, with the decrypted "
+         "kwargs, and the first bad decode ends the dispatch. Solver unknowns on the KeyRing units are handed to a replay "
+         "with real NaCl keys (round trip, wrong key, tampering).",
+    note="Trusted: z3, pyvc, NaCl Box (authenticated encryption: decrypt raises or opens; paired boxes invert each other), "
+         "JSON round trip, pytrie longest-prefix lookup. Not covered: INVOCATION / RESULT / YIELD arms, publish()/call() "
+         "encode paths, key management.",
+    technique="contract-based deductive verification over uninterpreted cryptographic primitives, ghost decode accounting, z3"),
+})
+
+CLAIMED.update({
  "C04": dict(category="proof",
     text="IdGenerator.next stays in 1..2^53 and is sequential; every reply arm of ApplicationSession.onMessage "
          "(PUBLISHED, SUBSCRIBED, UNSUBSCRIBED, REGISTERED, UNREGISTERED, RESULT incl. progressive, ERROR keyed by request "
